@@ -6,6 +6,6 @@ Definition default_evidence_max_bytes : Z := 1048576%Z.
 Definition default_block_max_bytes : Z := 104857600%Z.
 Definition max_evidence_bytes : Z := 484%Z.
 Definition max_evidence_bytes_denominator : Z := 10%Z.
-(* CreateProposalBlock passes the first result of MaxEvidencePerBlock(Evidence.MaxBytes), a count, as PendingEvidence's byte cap *)
-Definition default_proposal_pending_cap : Z := 216%Z.
-Definition default_proposal_evidence_budget : Z := 104857%Z.
+(* MaxEvidencePerBlock(Evidence.MaxBytes) = (count, bytes); CreateProposalBlock passes the bytes to PendingEvidence (commit e536522) *)
+Definition default_proposal_evidence_count : Z := 216%Z.
+Definition default_proposal_pending_cap : Z := 104857%Z.
